@@ -137,7 +137,7 @@ def speed(lon, lat, t, suspect_threshold, fail_threshold):
         full = not miss(lon[i]) and not miss(lat[i])
         both_missing = miss(lon[i]) and miss(lat[i])
         if i == 0:
-            out.append(fs(U) if not both_missing else fs(U, M))
+            out.append(fs(U))  # "flags the first point UNKNOWN" -- whatever was recorded there
             continue
         if both_missing:
             out.append(fs(M))
